@@ -290,6 +290,69 @@ def ext_templates(consts, rng, thorough):
     return out
 
 
+# ---- entity / character / parameter-entity REFERENCES sliding across the refill points of the CONTAINING entity ----
+REF_DOC_PRE = (b'<!DOCTYPE r [<!ENTITY ge "gval"><!ENTITY xe SYSTEM "xe.ent"><!ELEMENT r ANY><!ELEMENT e EMPTY><!ELEMENT c EMPTY>'
+               b'<!ATTLIST e a CDATA #IMPLIED>]><r>')
+REF_XE = b"EXT<c/>ent"
+DTD_DOC = b'<!DOCTYPE r SYSTEM "x.dtd"><r><e/><f/>&v;</r>'
+DTD_PRE = (b'<!ELEMENT r ANY><!ELEMENT e EMPTY><!ENTITY % c "a CDATA \'dflt\'"><!ENTITY % x "<!ELEMENT f EMPTY>">'
+           b'<!ENTITY % m "(#PCDATA)"><!ENTITY % pv "pe"><!ENTITY v "v0">')
+PE_HOST = DTD_PRE + b'<!ENTITY % ext2 SYSTEM "pe2.ent">%ext2;<!ELEMENT h EMPTY>'
+REF_TEMPLATES = [
+    # (name, container, lead, reference, tail)
+    ("ge-content", "doc", b"<e/>a", b"&ge;", b"b</r>"),
+    ("xe-content", "doc", b"<e/>a", b"&xe;", b"b</r>"),
+    ("ge-attr", "doc", b'<e a="v', b"&ge;", b'w"/>t</r>'),
+    ("ge-attr2", "doc", b'<e a="', b"&ge;&ge;", b'"/></r>'),
+    ("charref-content", "doc", b"a", b"&#x20AC;", b"b<e/></r>"),
+    ("charref-attr", "doc", b"<e a='v", b"&#65;", b"w'/></r>"),
+    ("pe-attlist", "ext", b"<!ATTLIST e ", b"%c;", b"><!ELEMENT g %m;>%x;<!ELEMENT k EMPTY>"),
+    ("pe-between", "ext", b"", b"%x;", b"<!ATTLIST e %c;>"),
+    ("pe-model", "ext", b"<!ELEMENT g ", b"%m;", b">%x;<!ATTLIST e %c;>"),
+    ("pe-entval", "ext", b'<!ENTITY w "a', b"%pv;", b'b">%x;<!ATTLIST e %c;>'),
+    ("charref-default", "ext", b'<!ATTLIST e b CDATA "d', b"&#65;", b'">%x;<!ATTLIST e %c;>'),
+    ("pe-attlist", "ext2", b"<!ATTLIST e ", b"%c;", b"><!ELEMENT g %m;>%x;"),
+    ("pe-between", "ext2", b"", b"%x;", b"<!ATTLIST e %c;>"),
+    ("pe-model", "ext2", b"<!ELEMENT g ", b"%m;", b">%x;<!ATTLIST e %c;>"),
+]
+
+
+def ref_variant(tpl, npad):
+    """(docspec, extspec, ext2spec) of one template with npad padding characters in its containing entity; the padding is
+    followed by a line feed so that every position reported after it is independent of npad"""
+    name, cont, lead, ref, tail = tpl
+    if cont == "doc":
+        doc = [REF_DOC_PRE, (b"x", npad), b"\n" + lead + ref + tail]
+        return spec_of(doc), hx(REF_XE), None
+    body = [b"<!--", (b"x", npad), b"-->\n" + lead + ref + tail]
+    if cont == "ext":
+        return hx(DTD_DOC), spec_of([DTD_PRE] + body), None
+    return hx(DTD_DOC), hx(PE_HOST), spec_of(body)
+
+
+def ref_offsets(tpl, consts):
+    """paddings that put every character of the reference ('&'/'%', name, ';') on offsets -3..+3 around kCharBufSize and
+    2*kCharBufSize characters of the containing entity"""
+    name, cont, lead, ref, tail = tpl
+    CB = consts["kCharBufSize"]
+    before = (len(REF_DOC_PRE) + 1 + len(lead)) if cont == "doc" else ((len(DTD_PRE) if cont == "ext" else 0) + 4 + 4 + len(lead))
+    pads = set()
+    for T in (CB, 2 * CB):
+        for i in range(len(ref)):
+            for d in range(-3, 4):
+                n = T + d - before - i
+                if n >= 0:
+                    pads.add(n)
+    return sorted(pads)
+
+
+def norm_dump(line):
+    """dump line without the hash and with every padding run collapsed"""
+    import re
+    f = line.split(" ", 2)
+    return re.sub(r"x{3,}", "X", f[2]) if len(f) > 2 else line
+
+
 def chunkings_for(rng, parts, prolog_len, consts, fill_fixed, n):
     """chunk specs for a document: 1 byte at a time, seeded random sizes, sizes straddling the construct"""
     CB, RB = consts["kCharBufSize"], consts["kRawBufSize"]
@@ -372,7 +435,7 @@ def run(ctx):
                 if not so[0].split()[1].startswith("bad") and impl[0].split()[0] != so[0].split()[0]:
                     ctx.violation("divergence", dict(r, impl=impl, spec=so))
         else:
-            keys = [" ".join(x.split()[:5]) for x in impl]
+            keys = [norm_dump(x) for x in impl] if r.get("compare") == "normalised" else [" ".join(x.split()[:5]) for x in impl]
             if rc != 0 or len(set(keys)) != 1:
                 ctx.violation("chunk-dependence", dict(r, impl=impl))
         return
@@ -716,6 +779,61 @@ def run(ctx):
             dviol += 1
             ctx.violation("source-dependence", {"requests": [dlines[idx[0]]], "stdin": o[:600], "memory": dout[idx[0]][:600],
                                                 "what": "StdInInputSource gives a different result than MemBufInputSource"})
+    # ---- 3b. references whose '&'/'%', name and ';' slide across the refill points of the CONTAINING entity --------
+    #          oracle (no model): the dump must not depend on the padding (padding runs collapsed; the padding ends with
+    #          a line feed, so positions after it are equal) and not on the chunking
+    t3 = time.time()
+    rlines = []
+    rgroups = []     # (template, container, [(npad, idx_mem, idx_chunk or None)])
+    for tpl in REF_TEMPLATES:
+        pads = [5] + ref_offsets(tpl, consts)
+        cfgr = ctx.rng.choice(["I1f", "D1f", "I0f"])
+        ents = []
+        for k, n in enumerate(pads):
+            d, e1, e2 = ref_variant(tpl, n)
+            tailspec = " ".join(x for x in (e1, e2) if x is not None)
+            im = len(rlines)
+            rlines.append("doc %s mem 0 %s %s" % (cfgr, d, tailspec))
+            ic = None
+            if k % 3 == 1 or ctx.tier == "thorough":
+                ic = len(rlines)
+                rlines.append("doc %s chunk %s %s %s" % (cfgr, ctx.rng.choice(["1", "4096", "7.1.4096", "1:16384", "16383", "16385"]), d, tailspec))
+            ents.append((n, im, ic))
+        rgroups.append((tpl, ents))
+    rc, rout, rerr = run_bin(xh, rlines, env=henv, timeout=900)
+    nref_bad = 0
+    if rc != 0 or len(rout) != len(rlines):
+        ctx.violation("harness-crash", {"what": "document-level harness crashed on the reference-sliding documents", "rc": rc,
+                                        "stderr": rerr, "request": rlines[len(rout)] if len(rout) < len(rlines) else None})
+    else:
+        for tpl, ents in rgroups:
+            base = norm_dump(rout[ents[0][1]])
+            for n, im, ic in ents:
+                ctx.count()
+                ctx.distinct((tpl[0], tpl[1], n))
+                if norm_dump(rout[im]) != base:
+                    nref_bad += 1
+                    if nref_bad <= 4:
+                        ctx.violation("alignment-dependence",
+                                      {"requests": [rlines[ents[0][1]], rlines[im]], "template": "%s in %s" % (tpl[0], tpl[1]),
+                                       "padding": n, "baseline": norm_dump(rout[ents[0][1]])[:700], "padded": norm_dump(rout[im])[:700],
+                                       "compare": "normalised",
+                                       "what": "the same document with a different amount of padding before a reference gives a "
+                                               "different result: the reference's position relative to the reader's refill "
+                                               "points changes the parse"})
+                if ic is not None:
+                    ctx.count()
+                    if rout[ic] != rout[im]:
+                        nref_bad += 1
+                        if nref_bad <= 4:
+                            ctx.violation("chunk-dependence", {"requests": [rlines[im], rlines[ic]], "one_shot": rout[im][:600],
+                                                               "other": rout[ic][:600], "kind": "ref-" + tpl[0],
+                                                               "what": "same document, different read sizes: different dump"})
+        # the baseline itself must be a clean parse that shows the reference's expansion (non-vacuity)
+        nclean = sum(1 for tpl, ents in rgroups if rout[ents[0][1]].split()[3] == "-" and rout[ents[0][1]].split()[4] == "-")
+        ctx.coverage["reference_sliding"] = {"templates": len(rgroups), "parses": len(rlines), "differing": nref_bad,
+                                             "baselines_without_errors": nclean}
+    ctx.note("reference sliding: %d templates, %d parses, %d differing, %.1fs" % (len(rgroups), len(rlines), nref_bad, time.time() - t3))
     ctx.coverage["document_level"] = {"documents": len(groups), "parses": len(dlines) + nstdin, "documents_with_errors": nerr,
                                       "violations": dviol, "stdin_parses": nstdin, "kinds": dk}
     ctx.note("document-level: %d documents, %d parses, %d differing, %.1fs" % (len(groups), len(dlines) + nstdin, dviol,
